@@ -56,6 +56,11 @@ MUTS = [
     ('B10', 'preserve', 'C14', D, "        THe Y value of the descriptor.\n        \"\"\"\n        return self.id % 1000",
      "        THe Y value of the descriptor.\n        \"\"\"\n        return self.id - self.id // 1000 * 1000"),
     ('B11', 'preserve', 'C09', U, "pad_dir='>' if pad_left else '>'", "pad_dir='>'"),
+    ('B12', 'change', 'C18', U, "            flat_values += flatten_list(entry)", "            flat_values = flatten_list(entry) + flat_values"),
+    ('B13', 'change', 'C18', U, "        else:\n            flat_values.append(entry)\n    return flat_values", "        else:\n            flat_values = [entry]\n    return flat_values"),
+    ('B14', 'unsupported', 'C18', U, "            flat_values += flatten_list(entry)", "            flat_values.extend(flatten_list(entry))"),
+    ('B15', 'preserve', 'C18', U, "            flat_values += flatten_list(entry)", "            flat_values = flat_values + flatten_list(entry)"),
+    ('B16', 'preserve', 'C18', U, "        else:\n            flat_values.append(entry)\n    return flat_values", "        else:\n            flat_values += [entry]\n    return flat_values"),
     # ---- stage C: the character state machine of script.py -----------------------------------------
     ('C1', 'change', 'C18', S, "elif c == '#' and state == STATE_IDLE:", "elif c == '#':"),
     ('C2', 'change', 'C18', S, "                # double/single quotes will be ignored\n                idx_char += 1\n",
